@@ -257,6 +257,7 @@ kv_vlen(int sz) {
     case VS_1K: return 1100;
     case VS_70K: return 70000;
     case VS_1M: return 1258291;
+    case VS_TAIL: return 32740;
   }
   return 0;
 }
@@ -298,7 +299,7 @@ kv_vparse(const void *data, size_t len, int *vid, int *sz, unsigned char *scratc
   if (len < 10 || d[0] != 'v' || d[9] != ':')
     return 0;
   *vid = atoi((const char *)d + 1);
-  for (s = VS_SHORT; s <= VS_1M; s++)
+  for (s = VS_SHORT; s <= VS_MAX; s++)
     if (kv_vlen(s) == len) {
       *sz = s;
       kv_vgen(scratch, *vid, s);
@@ -646,7 +647,21 @@ do_write(khist_t *h, const kop_t *op) {
     a->j_begin = vfs_cur ? vfs_jlen(vfs_cur) : 0;
     a->c_begin = vfs_cur ? vfs_cur->ncalls : 0;
   }
-  rc = ldb_write(h->db, &batch, &wo);
+  if (!h->markers && (op->kind == OP_PUT || op->kind == OP_DEL) && op->n == 1) {
+    /* a single update without a marker goes through the convenience entry points */
+    const kupd_t *u = &op->u[0];
+    ldb_slice_t k = ldb_slice(kv_keys[u->key], kv_keylen[u->key]);
+    if (op->kind == OP_DEL) {
+      rc = ldb_del(h->db, &k, &wo);
+    } else {
+      ldb_slice_t v;
+      kv_vgen(vbuf, kh_vid(opidx, 0), u->sz);
+      v = ldb_slice(vbuf, kv_vlen(u->sz));
+      rc = ldb_put(h->db, &k, &v, &wo);
+    }
+  } else {
+    rc = ldb_write(h->db, &batch, &wo);
+  }
   if (a) {
     a->status = rc;
     a->j_end = vfs_cur ? vfs_jlen(vfs_cur) : 0;
@@ -1104,7 +1119,7 @@ parse_vid(const ldb_slice_t *v, int *vid, int *sz) {
   if (v->size < 10 || d[0] != 'v' || d[9] != ':')
     return 0;
   *vid = atoi((const char *)d + 1);
-  for (s = VS_SHORT; s <= VS_1M; s++)
+  for (s = VS_SHORT; s <= VS_MAX; s++)
     if (kv_vlen(s) == v->size) {
       *sz = s;
       return kv_vcheck(v->data, v->size, *vid, s);
